@@ -48,9 +48,34 @@ CFG = {
             "value (same 39 values) behind 0-3 links at a random one of 9 positions (/Kids, /Contents, /Contents element "
             "between two good streams, /Resources, /Font, font entry, /Encoding, /FontDescriptor, extra kid entry). The case "
             "decoder drops dictionary entries whose value is null, as the real dictionary parser does. "
+            "+ GENERATION family (all the families above use generation 0 throughout; generations.case = 83 minimal instances): "
+            "an identifier is the pair (number, generation), `3 0 obj` and `3 1 obj` are unrelated objects and `3 2 R` denotes "
+            "nothing when only those are defined, so every set/map of identifiers in the converter (examined, followed, pages, "
+            "font_dicts, font_descrs, parent, kids) must key by the pair. Built by RENAMING a generation-0 graph through an injective "
+            "map number -> (number, generation) applied to definitions and to every reference (undefined targets included; the "
+            "catalog stays 1 0): 10 schemes - gens (n,n), maxgen (n,65535), onenum (EVERY object has number 1 like the catalog), "
+            "onenum-desc (all number 7, generations descending = map order reversed), pairs-a/b, mod2, mod3 (neighbouring numbers "
+            "/ residue classes share: root+page, page+node, two pages, two nodes, page+stream, page+resources, fonts+descriptors), "
+            "links / onpage (only the chain links / containers / undefined targets of the family share number 50 / the number "
+            "of page 3 0). Renamed: the 277 chain-family graphs x 10 schemes (tc where check_type accepts); the small family "
+            "(shared kids, cycles, root as kid) under the 6 colliding schemes (every 7th graph x 1 scheme in quick, all 5292 x 3 in "
+            "thorough); the wrong-kind family (every 7th x 1 of 8 schemes in quick, all 2184 x 2 in thorough); the long-chain family "
+            "with all links in ONE object number (every 5th in quick, all x {links, onenum} in thorough); n/5 random trees of "
+            "all five kinds under a random renaming n -> (n mod m + a, n div m + b) or (n div m + a, n mod m + b), m = 1..4, "
+            "b in {1,2,7,65000}. WRONG-GENERATION variants at each of the 14 positions x 3 placements (own number 50 / the number "
+            "of page 3 0 / own number while every other object has generation 2): reference to generation 1 when only 0 is defined "
+            "and vice versa, an integer decoy in the sibling generation (defined before / after the value; decoy referenced), "
+            "the same value under two generations (provenance must name the referenced one), a chain 3 -> 2 -> 1 -> value inside "
+            "one number, a link to an undefined generation of its own number (9 x 14 x 3 = 378). 24 hand-built minimal "
+            "instances (two/three pages, page+node, two nodes, root+kids in one number; kid of undefined generation before / "
+            "after / between defined ones; /Pages with a wrong generation; cycle through generations; /Contents, /Contents "
+            "array, /Resources -> /Font -> font -> descriptor -> font file inside the page's number; two fonts / two "
+            "descriptors in one number; font / descriptor / contents of undefined generation). The oracle keys seen-set, "
+            "definitions and records by the pair. "
             "Non-trivial = expected DOM has >=3 records "
             "including an inner node, or the graph contains a top-level reference object (chain link or loop), or an array "
-            "that lists an array (directly or through a reference to an array object).",
+            "that lists an array (directly or through a reference to an array object), or two identifiers (defined or "
+            "referenced) that share the object number and differ in the generation.",
     "trusted_base": COMMON_TB + [
         "modelled, not verified: Rc identity as provenance (identifier the Rc was cloned from), BTreeMap/BTreeSet as sorted "
         "association lists, std::str::from_utf8 as the Unicode Table 3-7 recogniser utf8Valid",
